@@ -14,5 +14,5 @@ Adds2T == Adds2 \cup {<<P(RD, {}), P(DS, {"txt"})>>}
 Sc_t4 == <<Fam2a(TreesCT, Lists2T), Fam2b(TreesCT, Lists2T, Adds2T)>>
 TreesDeep == {Tree(F, {}) : F \in UpTo({dxt, dsxt, dszt, dsuxt, dsdx, dyg}, 3) \ {{}}}
 Sc_t6 == <<Fam2b(TreesDeep, Lists2T, Adds2T)>>
-Sc_t5 == <<Fam3a(3), Fam3b(3), Fam4a, Fam4b, Fam5a(Trees4 \cup Trees5 \cup {Tree({dxt, dxp, dyg, dsxt}, {dt})}), Fam5b(Trees4 \cup Trees5)>>
+Sc_t5 == <<Fam3a(3), Fam3b(3), Fam4a, Fam4b, Fam5a(Trees4 \cup Trees5 \cup {Tree({dxt, dxp, dyg, dsxt}, {dt})}), Fam5b(Trees4 \cup Trees5), Fam6a, Fam6b>>
 =============================================================================
